@@ -93,6 +93,10 @@ POSITIONS = {
     "between": lambda c: HEAD + f"k = 1\n {c}\nj = 2\nEND\n",
     "after-END": lambda c: HEAD + f"k = 1\nEND\n{c} trailing",
     "lone-line-end": lambda c: HEAD + f"k = 1 {c}\nEND\n",
+    # inside a lexeme that spans lines, on a later line than its first character
+    "quoted-2nd-line": lambda c: HEAD + f'k = "first line\n  second {c} line"\nEND\n',
+    "comment-3rd-line": lambda c: HEAD + f"/* one\n two\n three {c} */\nk = 1\nEND\n",
+    "units-2nd-line": lambda c: HEAD + f"k = 1 <a\n{c}b>\nEND\n",
 }
 # every gap of a small label that exercises each statement form: the character as a
 # token of its own ("gapNN") and glued to the end of the preceding token ("glueNN")
@@ -116,7 +120,7 @@ for _i in range(1, len(GAP_TOKENS)):
     POSITIONS[f"gap{_i:02d}"] = (lambda c, _i=_i: _gap_text(_i, c, False))
     POSITIONS[f"glue{_i:02d}"] = (lambda c, _i=_i: _gap_text(_i, c, True))
 BASIC_SET = {"name", "unquoted", "quoted", "comment", "units", "between", "after-END",
-             "lone-line-end"}
+             "lone-line-end", "quoted-2nd-line", "comment-3rd-line", "units-2nd-line"}
 GAP_EXTRA = {0x100, 0x17F, 0x3B1, 0x2028, 0x20AC, 0xD7FF, 0xD800, 0xDFFF, 0xE000, 0xFEFF,
              0xFFFF, 0x10000, 0x1F600, 0x10FFFF}
 BASIC_POSITIONS = [k for k in POSITIONS if not k.startswith(("gap", "glue"))]
@@ -192,11 +196,12 @@ def check_one(cfg, posname, o):
             return (f"C15/{gname}/allowed-rejected/{posname}",
                     f"{cfg}: U+{o:04X} is in the character set but was rejected "
                     f"in {posname} position")
-        if cfg == "default" and posname in ("quoted", "comment") and c != '"':
+        if cfg == "default" and posname in ("quoted", "comment", "quoted-2nd-line",
+                                            "comment-3rd-line") and c != '"':
             return (f"C15/default/rejected/{posname}",
                     f"default loader failed for U+{o:04X} in {posname}: {e!r}")
         return None
-    if posname == "quoted" and c != '"':
+    if posname == "quoted" and c != '"':  # (only the one-line template)
         m = outcome[1]
         n = nm.Norm(folding=cfg in ("ODL", "PDS3", "default") or cfg.endswith("-loads"),
                     omni=cfg == "default" or cfg.endswith("-loads"))
